@@ -63,6 +63,12 @@ structure ClassDef where
   /-- class-level data attributes as `getattr(instance, name)` sees them (inherited ones included),
       e.g. the ignore list -/
   classAttrs : List (String × PyVal) := []
+  /-- How instances behave when an ignore-list entry is compared with them (`entry == instance`, which Python
+      delegates to the instance's `__eq__` since the entries are primitives or tuples): `none` — `object.__eq__`
+      (never equal); `some exc` — the comparison cannot be decided: `__eq__` raises `exc` when it is handed a value
+      of another kind, or answers an object whose truth value raises `exc` (array-like classes).  `__hash__` and
+      `__bool__` of a value are never consulted by `dump` (no construct of the model reads them). -/
+  eqRaises : Option String := none
 deriving Repr, Inhabited
 
 abbrev ClassEnv := List (String × ClassDef)
@@ -179,9 +185,35 @@ def isDecimalObj (env : ClassEnv) : PyVal → Bool
     | Option.none => false
   | _ => false
 
-/-- `attr_value in ignore_list` (Python `==` on each entry). -/
+/-- The exception class `entry == v` raises for an instance of a class with a hostile `__eq__`. -/
+def eqRaisesOf (env : ClassEnv) : PyVal → Option String
+  | .obj c _ => match env.lookup c with
+    | some d => d.eqRaises
+    | Option.none => Option.none
+  | _ => Option.none
+
+def isNonEmptyTuple : PyVal → Bool
+  | .tuple (_ :: _) => true
+  | _ => false
+
+/-- Comparisons `entry == value` the model does not describe: a `Decimal` with anything, and a *tuple* value that
+    holds an instance with a hostile `__eq__` directly with a tuple entry (Python compares tuples item by item up
+    to the first difference, which may or may not reach the hostile item). -/
+def inUndescribed (env : ClassEnv) (v : PyVal) (ignoreList : List PyVal) : Bool :=
+  (isDecimalObj env v && !ignoreList.isEmpty) ||
+  (match v with
+    | .tuple xs => xs.any (fun x => (eqRaisesOf env x).isSome) && ignoreList.any isNonEmptyTuple
+    | _ => false)
+
+/-- Nothing is compared with the entries of an empty list. -/
+@[simp] theorem inUndescribed_nil (env : ClassEnv) (v : PyVal) : inUndescribed env v [] = false := by
+  cases v <;> simp [inUndescribed]
+
+/-- `attr_value in ignore_list` (Python `==` on each entry: the first entry already raises when the value's
+    `__eq__` is hostile; an empty list compares nothing). -/
 def valueIn (env : ClassEnv) (v : PyVal) (ignoreList : List PyVal) : PyM Bool :=
-  if isDecimalObj env v && !ignoreList.isEmpty then raise "Unmodelled" (.str "Decimal.__eq__")
+  if inUndescribed env v ignoreList then raise "Unmodelled" (.str "comparison outside the model")
+  else if !ignoreList.isEmpty && (eqRaisesOf env v).isSome then raise ((eqRaisesOf env v).getD "")
   else pure (ignoreList.any (fun e => pyEq e v))
 
 /-- `key in ignore_list` for an attribute name: Python `==` of each entry with the string. -/
@@ -670,6 +702,11 @@ def ignoreAssembly : Bool × Bool × Bool := (true, true, true)
     and only the returned attributes with `key not in ignore_list` are emitted (the `filter` of the model's
     serial branch). -/
 def serialIgnoreFilter : Bool := true
+
+/-- The field test of `dumpFields`, in evaluation order: the type test comes first, so that a value of neither a
+    supported nor a handled type is never compared with the ignore-list entries (`keep.contains n && isKnown X x`
+    guards `valueIn`). -/
+def fieldFilterOrder : List String := ["isinstance-known", "not-in-ignore"]
 
 /-- `dumpTop`: `x or config.x` for the two names, `ignore or []`. -/
 def dumpDefaults : Bool × Bool × Bool := (true, true, true)
